@@ -212,7 +212,10 @@ def make_env_hooks(repo, ci, fn, self_obj):
         if s.endswith('global_phase_operation') and call.args:
             return OpV(GateV(None, kind='phase', coefficient=complex(it.ev(call.args[0])), n=0), [])
         if isinstance(f, ast.Attribute) and isinstance(f.value, ast.Name) and f.value.id == 'self' and f.attr in ci.methods:
-            sub = GenInterp({'self': self_obj, **{a.arg: it.ev(v) for a, v in zip(ci.methods[f.attr].args.args[1:], call.args)}},
+            mfn = ci.methods[f.attr]
+            static = any(ast.unparse(d_) == 'staticmethod' for d_ in mfn.decorator_list)
+            mparams = mfn.args.args if static else mfn.args.args[1:]
+            sub = GenInterp({'self': self_obj, **{a.arg: it.ev(v) for a, v in zip(mparams, call.args)}, **{k.arg: it.ev(k.value) for k in call.keywords if k.arg}},
                             call_hook=call_hook, attr_hook=attr_hook)
             sub.name_lookup = name_lookup
             r = sub.call(ci.methods[f.attr])
